@@ -242,6 +242,10 @@ namespace
         if (pid < 0) { return "?fork"; }
         if (pid == 0) {
             close(fds[0]);
+            // whatever the library prints in the child (--version / --help print and call exit(0); which stream they go to depends on
+            // process-wide logger state left by earlier cases) must not reach the driver's line protocol on stdout
+            int nul = open("/dev/null", O_WRONLY);
+            if (nul >= 0) { dup2(nul, 1); }
             std::string r;
             try { r = fn(); } catch (std::exception const& e) { r = std::string("!exception ") + e.what(); }
             size_t off = 0;
